@@ -70,7 +70,7 @@ func C16(c *Ctx) {
 	r.Explanation = "(A2) every write of a module's Params section is guarded, in the writing function, by Params.Validate()==nil on the very value that is marshalled; (A1) only keeper SetParams and the v3 migration write that section; " +
 		"(A8) no call site of a params writer (SetParams) drops its error, in handlers, genesis import or migrations; (A7) Params.Validate reads every field of the Params struct, hands it to a validator that has a value-dependent rejecting branch, and contains the cross-field rejections (default<=max, signers>=min accepts); MsgUpdateParams.ValidateBasic reaches Validate and propagates its error; " +
 		"(A6) no caching: no keeper struct or package variable has a Params type, and no keeper method stores through its receiver, so every use reads the store. Decides these structural necessary conditions for all inputs and call sites; numeric bounds inside validators are only checked for presence."
-	r.Rules = []string{"A1.params-writers", "A2.params-validated", "A8.setparams-error", "A7.validate-fields", "A7.validate-cross-field", "A7.update-validatebasic", "A6.no-params-cache"}
+	r.Rules = []string{"A1.params-writers", "A2.params-validated", "A8.setparams-error", "A7.validate-fields", "A7.validate-rule", "A7.validate-cross-field", "A7.update-validatebasic", "A6.no-params-cache"}
 	r.Trusted = []string{"baseapp/gov call ValidateBasic before dispatch", "sdk.ValidateDenom", "codec marshalling"}
 	r.NotDecided = []string{"numeric bounds inside validators beyond presence of a rejecting comparison", "governance proposal flow"}
 
@@ -220,6 +220,8 @@ func validateCoverage(c *Ctx, m string, wantFields int) {
 			if len(callees) == 1 {
 				if rejectingBranch(c, callees[0]) && !errorDropped(call) && errReturned(c, vf, call) {
 					ok = true
+					// the specific validity rule of the field's kind
+					fieldRule(c, m, f, st.Field(i).Type(), callees[0])
 				} else {
 					detail = "validator " + fn(callees[0]) + " has no value-dependent rejecting branch, or its error is not returned"
 				}
@@ -438,4 +440,61 @@ func noParamsCache(c *Ctx) {
 		}
 	}
 	r.Analysed["stores_through_pointer_params_in_keeper_pkgs"] = n
+}
+
+// fieldRule checks the kind-specific rejection inside a field validator: unsigned numeric
+// parameters must be rejected when zero ("positive fees and limits"), denominations must be
+// rejected when blank and when sdk.ValidateDenom fails, signer lists must be rejected when
+// empty or when an element is not a valid address.
+func fieldRule(c *Ctx, m, field string, t types.Type, v *ssa.Function) {
+	w, r := c.W, c.R
+	asserted := func(e *ir.Expr) bool {
+		return e.Op == "res" && e.Name == "0" && len(e.Args) == 1 && e.Args[0].Op == "assert"
+	}
+	key := m + "." + field
+	switch {
+	case t.String() == "uint64":
+		ok := hasRejectingCmp(c, v, func(op string, x, y *ir.Expr) bool {
+			zero := y.Op == "const" && y.Name == "0"
+			one := y.Op == "const" && y.Name == "1"
+			return asserted(x) && (op == "==" && zero || op == "<=" && zero || op == "<" && one)
+		})
+		r.Require(ok, "A7.validate-rule", key+"|positive", w.Pos(v.Pos()), "the validator of "+key+" rejects the value 0 (fees, limits and thresholds are positive)", "no rejecting comparison with 0")
+	case t.String() == "string" && strings.Contains(strings.ToLower(field), "denom"):
+		callsValidate, blank := false, false
+		for _, b := range v.Blocks {
+			for _, in := range b.Instrs {
+				if call, ok := in.(*ssa.Call); ok {
+					e := w.ExprOf(call)
+					if calleeIs(e, "types.ValidateDenom") && len(e.Args) == 1 && asserted(e.Args[0]) && errReturned(c, v, call) {
+						callsValidate = true
+					}
+				}
+			}
+		}
+		blank = hasRejectingCmp(c, v, func(op string, x, y *ir.Expr) bool {
+			return op == "==" && y.Op == "const" && y.Name == `""` && x.Any(asserted)
+		})
+		r.Require(callsValidate, "A7.validate-rule", key+"|well-formed", w.Pos(v.Pos()), "the validator of "+key+" returns the error of sdk.ValidateDenom on the value", "no returned ValidateDenom call")
+		r.Require(blank, "A7.validate-rule", key+"|non-blank", w.Pos(v.Pos()), "the validator of "+key+" rejects a blank denomination", "no rejecting comparison with the empty string")
+	case t.String() == "string" && strings.Contains(strings.ToLower(field), "signers"):
+		empty := hasRejectingCmp(c, v, func(op string, x, y *ir.Expr) bool {
+			return op == "==" && y.Op == "const" && y.Name == "0" && x.Op == "call" && x.Name == "builtin:len" && x.Any(asserted)
+		})
+		elem := false
+		for _, b := range v.Blocks {
+			iff, ok := b.Instrs[len(b.Instrs)-1].(*ssa.If)
+			if !ok {
+				continue
+			}
+			e := w.ExprOf(iff.Cond)
+			op, x, y, okc := ir.Pred{E: e, Pol: true}.Cmp()
+			if okc && op == "!=" && y.Op == "const" && y.Name == "nil" && x.Op == "res" && x.Name == "1" && calleeIs(x.Args[0], "types.AccAddressFromBech32") &&
+				x.Args[0].Args[0].Any(asserted) && onlyErrorsFrom(c, v, b.Succs[0]) && ir.EnclosingLoopHeader(v, iff) != nil {
+				elem = true
+			}
+		}
+		r.Require(empty, "A7.validate-rule", key+"|non-empty", w.Pos(v.Pos()), "the validator of "+key+" rejects an empty signer list", "no rejecting len == 0 comparison")
+		r.Require(elem, "A7.validate-rule", key+"|well-formed", w.Pos(v.Pos()), "the validator of "+key+" rejects every element that is not a valid bech32 address (in a loop over the comma-separated list)", "no rejecting AccAddressFromBech32 error inside a loop")
+	}
 }
